@@ -11,7 +11,7 @@
     apply_func, fork_thread/join_thread, apply_tags, and the executor modes (thread / process /
     async), which differ only in how arguments and results are serialised. *)
 From Coq Require Import List ZArith Bool Arith.
-From RV Require Import Model.EvalTree Proofs.EvalTreeWF Proofs.EvalTreeRun Proofs.EvalTreeRef.
+From RV Require Import Model.EvalTree Proofs.EvalTreeWF Proofs.EvalTreeRun Proofs.EvalTreeRef Proofs.EvalTreeDet.
 Import ListNotations.
 Open Scope list_scope.
 
@@ -52,6 +52,24 @@ Example C01_catch_all_nonvacuous :
   result (run s early) = None /\ result (run s (early ++ rest)) = Some (Ko 1%Z) /\ admb s (Ko 2%Z) = false.
 Proof. vm_compute. repeat split; reflexivity. Qed.
 
+(** Exactly the value the reduction yields: a program in which no parallel container has two failing children
+    ([detb]; in particular every program that does not fail twice at once) has ONE admissible outcome, so all
+    schedules, executors and completion orders that finish return the same value or raise the same error. *)
+Theorem C01_one_outcome : forall s o1 o2, detb s = true -> adm s o1 -> adm s o2 -> o1 = o2.
+Proof. intros s o1 o2 H. exact (adm_unique s H o1 o2). Qed.
+
+Theorem C01_schedule_independent : forall s ops1 ops2 o1 o2,
+  detb s = true -> result (run s ops1) = Some o1 -> result (run s ops2) = Some o2 -> o1 = o2.
+Proof. exact run_schedule_independent. Qed.
+
+(** ... and the side condition is needed: two failing children of one list may surface either error. *)
+Example C01_two_failures_two_outcomes :
+  let s := SList 0 [SRaise 1; SRaise 2] in
+  detb s = false /\
+  result (run s [OStart []; OFinish []; OStart [0]; OFinish [0]]) = Some (Ko 1%Z) /\
+  result (run s [OStart []; OFinish []; OStart [1]; OFinish [1]]) = Some (Ko 2%Z).
+Proof. vm_compute. repeat split; reflexivity. Qed.
+
 (** Non-vacuity: two schedules of one program, with an orphaned sibling, same admissible result. *)
 Example C01_nonvacuous :
   let s := SList 1 [SCatch (SSeq [SLeaf 2; SRaise 7; SLeaf 3]); SList 4 [SLeaf 5; SLeaf 6]] in
@@ -70,3 +88,5 @@ Print Assumptions C01_result_stable.
 Print Assumptions C01_value_xor_error.
 Print Assumptions C01_reference_decides.
 Print Assumptions C01_catch_all_positional.
+Print Assumptions C01_one_outcome.
+Print Assumptions C01_schedule_independent.
